@@ -98,9 +98,27 @@ def textual (b : BaseDt) (v27 : Bool) (text : Str) (strict : Bool) : R LeafV :=
   | some ml => if strict && text.length > ml then .error .MaxLengthReached else .ok (.esc v27 text)
   | none => .ok (.esc v27 text)
 
+def lowerC (c : Char) : Char := if 'A' ≤ c && c ≤ 'Z' then Char.ofNat (c.toNat + 32) else c
+
+/-- the special values `Decimal(str)` accepts besides numbers: `[+-](inf|infinity|nan<digits>|snan<digits>)` -/
+def decimalSpecial (s : Str) : Bool :=
+  let t := (Num.signSplit (strip s)).2.map lowerC
+  t == "inf".toList || t == "infinity".toList ||
+  ("nan".toList.isPrefixOf t && (t.drop 3).all isDig) || ("snan".toList.isPrefixOf t && (t.drop 4).all isDig)
+
+/-- inputs **outside the model's domain** (the model answers `Unsupported`, never a claim about the
+    code): `_` digit separators and non-ASCII characters (Python's `int`, `Decimal` and the `\d` of
+    `strptime`/`re` accept Unicode digits), and the special values of `Decimal`. -/
+def outOfDomain (k : BaseKind) (s : Str) : Bool :=
+  match k with
+  | .dt | .tm | .dtm | .tn => s.any (fun c => c.toNat > 127)
+  | .si => s.any (fun c => c == '_' || (c.toNat > 127 && !isWS c))
+  | .nm => s.any (fun c => c == '_' || (c.toNat > 127 && !isWS c)) || decimalSpecial s
+  | _ => false
+
 /-- one factory call `factories[datatype](value, …)` before the TOLERANT fallback;
     `none` = the call raised `ValueError` -/
-def construct (b : BaseDt) (text : Str) (strict : Bool) : Option (R LeafV) :=
+def constructCore (b : BaseDt) (text : Str) (strict : Bool) : Option (R LeafV) :=
   match b.kind with
   | .dt => (Dt.accept .DT text).map (fun r => .ok (.raw r))
   | .tm => (Dt.accept .TM text).map (fun r => .ok (.raw r))
@@ -113,6 +131,9 @@ def construct (b : BaseDt) (text : Str) (strict : Bool) : Option (R LeafV) :=
   | .text => some (textual b false text strict)
   | .text27 => some (textual b true text strict)
   | .other => some (.error .Unsupported)
+
+def construct (b : BaseDt) (text : Str) (strict : Bool) : Option (R LeafV) :=
+  if outOfDomain b.kind text then some (.error .Unsupported) else constructCore b text strict
 
 /-- `datatype_factory(datatype, value, version, validation_level)` for a `str` value.
     `d` is read exactly where the code reads a default: the TOLERANT fallback `factories['ST'](value)`
